@@ -221,9 +221,12 @@ def run(chk):
         progs.append((_c18.stateful_program(rng), "stateful"))
     for d in ([2, 3, 5, 9, 17, 40] if chk.thorough else [3, 9, 24]):
         progs.append((deep_hierarchy(d), "deep-hierarchy"))
+    known_src = {}
     for _fn, o in load_corpus("C12"):
         if "source" in o:
             progs.append((o["source"], "corpus"))
+            if o.get("known"):
+                known_src[o["source"]] = o["known"]
     lines = ["run %s 1 %s" % (evallib.hx(s), evallib.draws_arg(evallib.gen_draws(rng, 6))) for s, _k in progs]
     impl, incident = run_guarded(evallib.harness("asan"), lines, chunk_timeout=240)
     kinds, outcomes = {}, {}
@@ -245,7 +248,9 @@ def run(chk):
             pass
         else:
             why = "the run ended with '%s'" % a[:200]
-        if why and bad is None:
+        if why and src in known_src:
+            chk.violation("corpus program: " + why, {"match_key": known_src[src], "source": src, "kind": "program"})
+        elif why and bad is None:
             bad = (src, kind, why)
     chk.extra["input_distribution"] = kinds
     chk.extra["outcomes"] = outcomes
